@@ -66,7 +66,21 @@ def run(tier, seed):
                             got = f"raised {type(ex).__name__}: {ex}"
                         if got != want:
                             viol.append({"id": "macro-binding", "witness": f"m{m}k{k}q{q}", "source": src, "got": got, "want": want})
+    # a call must not change what a later call of the same macro sees
+    for sig, first, second, want in (("a, b: 'B'", "1, 2", "", "[1|2][|B]"), ("a: 'A'", "a: 9", "", "[9][A]"), ("a, b", "b: 2", "1", "[|2][1|]"), ("a: 'A', b: 'B'", "'x', 'y'", "b: 'z'", "[x|y][A|z]")):
+        cases += 1
+        nparams = sig.count(",") + 1
+        body = "[" + "|".join("{{ " + p.split(":")[0].strip() + " }}" for p in sig.split(",")) + "]"
+        src = "{% macro f " + sig + " %}" + body + "{% endmacro %}{% call f " + first + " %}{% call f " + second + " %}"
+        try:
+            got = e.from_string(src).render()
+        except Exception as ex:  # noqa: BLE001
+            got = f"raised {type(ex).__name__}: {ex}"
+        if got != want:
+            viol.append({"id": "macro-binding", "witness": "call-sequence", "source": src, "got": got, "want": want})
+    import asyncio
     withs = [
+        ("{% assign a = 1 %}{% assign b = 2 %}{% with a: b, b: a %}{{ a }},{{ b }}{% endwith %}|{{ a }},{{ b }}", "2,1|1,2"),
         ("{% assign x = 'o' %}{% with x: 'i' %}{{ x }}{% endwith %}{{ x }}", "io"),
         ("{% with a: 1, b: 2 %}{{ a }}{{ b }}{% with a: 3 %}{{ a }}{{ b }}{% endwith %}{{ a }}{% endwith %}[{{ a }}{{ b }}]", "12321[]"),
         ("{% with a: 1 %}{% assign a = 9 %}{{ a }}{% endwith %}{{ a }}", "19"),
@@ -79,6 +93,12 @@ def run(tier, seed):
             got = f"raised {type(ex).__name__}: {ex}"
         if got != want:
             viol.append({"id": "with-scope", "witness": "with", "source": src, "got": got, "want": want})
+        try:
+            got = asyncio.run(e.from_string(src).render_async())
+        except Exception as ex:  # noqa: BLE001
+            got = f"raised {type(ex).__name__}: {ex}"
+        if got != want:
+            viol.append({"id": "with-scope", "witness": "with:async", "source": src, "got": got, "want": want})
     return {"bound": "macros with 0..3 params x default masks x 0..4 positional x 0..2(3) keyword args over names {p0,p1,zz}; 3 with-block templates", "cases": cases, "distinct": cases, "violations": viol, "sample": {"source": source(["p0"], [None], ["a0", "a1"], [("zz", "k0")])}}
 
 
